@@ -11,7 +11,7 @@ Mk(rl, hs, fr, n, cs, last, trl, pad) ==
   [rl |-> rl, hdrs |-> hs, fr |-> fr, n |-> n, chunks |-> cs, last |-> last, trl |-> trl, pad |-> pad]
 
 Follower == Mk("RL11", <<>>, "none", 0, <<>>, "none", <<>>, NoPad)
-Ch(sz) == [sz |-> sz, n |-> SizeVal(sz), term |-> TRUE]
+Ch(sz) == [sz |-> sz, n |-> SizeVal(sz), term |-> TRUE, junk |-> 0]
 
 (* the body a strict sender would lay out after this head *)
 Canon(rl, hs, pad) ==
@@ -38,8 +38,12 @@ Heads3 == {Full(<<Canon("RL11", <<a, b, c>>, NoPad), Follower>>) : a \in FrKinds
 
 (* chunk layouts *)
 GoodChunks == {Ch(sz) : sz \in SizeOk \cup SizeDontCare}
-BadChunks == {[sz |-> sz, n |-> 0, term |-> FALSE] : sz \in SizeBad}
-             \cup {[sz |-> "S1", n |-> 1, term |-> FALSE], [sz |-> "S2", n |-> 2, term |-> FALSE]}
+BadChunks == {[sz |-> sz, n |-> 0, term |-> FALSE, junk |-> 0] : sz \in SizeBad}
+             \cup {[sz |-> "S1", n |-> 1, term |-> FALSE, junk |-> 0], [sz |-> "S2", n |-> 2, term |-> FALSE, junk |-> 0]}
+(* malformed chunks laid out so that a lenient reader would carry on: a size only int(x, 16) accepts
+   followed by its data, and two junk bytes where the CRLF after the data should be *)
+LenientChunks == {[sz |-> "Sbad1", n |-> 1, term |-> TRUE, junk |-> 0],
+                  [sz |-> "S1", n |-> 1, term |-> FALSE, junk |-> 2], [sz |-> "S2", n |-> 2, term |-> FALSE, junk |-> 2]}
 TrlSet == {<<>>, <<"Plain">>, <<"BadName">>, <<"CL1">>, <<"TEchunked">>, <<"ObsFold">>, <<"Plain", "Plain">>,
            <<"Under">>, <<"NulVal">>}
 ChunkedMsg(cs, last, trl) == Mk("RL11", <<"TEchunked">>, "chunked", 0, cs, last, trl, NoPad)
@@ -48,6 +52,8 @@ Chunks ==
        cs \in Seq01(GoodChunks) \cup Seq2(GoodChunks), last \in LastOk, trl \in TrlSet}
   \cup {Full(<<ChunkedMsg(cs \o <<b>>, "none", <<>>), Follower>>) :
        cs \in Seq01(GoodChunks), b \in BadChunks}
+  \cup {Full(<<ChunkedMsg(cs \o <<b>> \o cs2, "Z0", <<>>), Follower>>) :
+       cs \in Seq01(GoodChunks), b \in LenientChunks, cs2 \in Seq01({Ch("S1")})}
 
 (* pipelines of three messages *)
 PipeMsgs == {Follower,
